@@ -55,6 +55,67 @@ class _Family:
 
 conv, burgers, sw, euler = _Family(conv), _Family(burgers), _Family(sw), _Family(euler)
 
+# ----------------------------------------------------------------------------- operators live among other operators
+_real_modeldisc = modeldisc
+
+
+def _sibling_mesh(m):
+    """same cell count, origin and length (1D) / same nx, ny (2D), other cell positions / sizes"""
+    if hasattr(m, "nx"):
+        return mesh2d.mesh2d(m.nx, m.ny, m.lx * 2.0, m.ly * 0.5) if hasattr(m, "lx") else None
+    n = m.ncell
+    if n < 2:
+        return None
+    xf = np.asarray(m.xf, dtype=float)
+    xi = np.linspace(0.0, 1.0, n + 1)
+    faces = xf[0] + (xf[-1] - xf[0]) * (xi + 0.3 * xi * (1.0 - xi))
+    faces[-1] = xf[-1]
+    ref = np.linspace(0.0, 1.0, n + 1)
+    sib = mesh.morphedmesh(ncell=n, length=1.0, morph=lambda x: np.interp(x, ref, faces))
+    if hasattr(m, "length"):
+        sib.length = m.length
+    return sib
+
+
+class _Operators:
+    """flowdyn.modeldisc, except that every operator it builds gets a SIBLING: an operator with the same model object, the same
+    reconstruction object and the same boundary conditions on a sibling mesh, built right after it and evaluated once (on the same
+    data) before the first evaluation of the judged operator.  Whatever a model, a reconstruction or a mesh-independent helper
+    remembers from serving another mesh then shows up in every operator-level check (C01, C03, C09, C10, C13, C14, C15, C19)"""
+
+    def __getattr__(self, name):
+        obj = getattr(_real_modeldisc, name)
+        if not (isinstance(obj, type) and hasattr(obj, "rhs")):
+            return obj
+
+        def build(model, m, num, *a, **k):
+            op = obj(model, m, num, *a, **k)
+            try:
+                sm = _sibling_mesh(m)
+                sib = obj(model, sm, num, *a, **k) if sm is not None else None
+            except Exception:
+                sib = None
+            if sib is not None:
+                real_rhs = op.rhs
+                state = {"primed": False}
+
+                def rhs(f):
+                    if not state["primed"]:
+                        state["primed"] = True
+                        try:
+                            with np.errstate(all="ignore"):
+                                sib.rhs(field.fdata(f.model, sib.mesh, [np.array(d, dtype=float, copy=True) for d in f.data], t=f.time))
+                        except Exception:
+                            pass
+                    return real_rhs(f)
+                op.rhs = rhs
+            return op
+        build.__name__ = name
+        return build
+
+
+modeldisc = _Operators()
+
 LIMITERS = ["minmod", "vanalbada", "vanleer", "superbee"]
 LINEAR_RECONS = ["extrapol1", "extrapol2", "k-1", "k0", "k1/3", "k1/2", "k1"]
 ALL_RECONS = LINEAR_RECONS + ["muscl_" + l for l in LIMITERS]
